@@ -102,50 +102,51 @@ theorem no_duplicate_send (wf : WF T self) : (relayFuel fuel T self o oz log).se
     master and iteration order: what the model of `SyncRelayMessage` does satisfies the executable specification -
     the same predicate the check evaluates on the implementation's observations. -/
 theorem relay_meets_spec (c : Case) (wf : WF T c.self) :
-    specCase fuel T c (relayFuel fuel T c.self c.origin c.objZone c.log).obs = none := by
+    specCase fuel T c ((relayFuel fuel T c.self c.origin c.objZone c.log).obs T c.self) = none := by
   have hd : Detached T := wf.toDetached
   have hz := wf.zone_of_mem
-  have h1 : (relayFuel fuel T c.self c.origin c.objZone c.log).sent.all (fun e => e != c.self && T.conn c.self e) = true := by
+  -- what is queued was handed over
+  have hq : ∀ e, e ∈ queued T c.self (relayFuel fuel T c.self c.origin c.objZone c.log) →
+      e ∈ (relayFuel fuel T c.self c.origin c.objZone c.log).sent := fun e he => (List.mem_filter.mp he).1
+  generalize hQ : queued T c.self (relayFuel fuel T c.self c.origin c.objZone c.log) = Q at hq
+  have h1 : Q.all (fun e => e != c.self && T.conn c.self e) = true := by
     rw [List.all_eq_true]
     intro e he
-    have := reachable_only he
+    have := reachable_only (hq e he)
     simp [this.1, this.2]
-  have h2 : (relayFuel fuel T c.self c.origin c.objZone c.log).sent.all
-      (fun e => entitledB fuel T c.self c.objZone (T.zoneOf e)) = true := by
+  have h2 : Q.all (fun e => entitledB fuel T c.self c.objZone (T.zoneOf e)) = true := by
     rw [List.all_eq_true]
     intro e he
-    exact only_entitledB hd hz he
-  have h3 : (relayFuel fuel T c.self c.origin c.objZone c.log).sent.all
-      (fun e => c.origin.client != some e && c.origin.fromZone != some (T.zoneOf e)) = true := by
+    exact only_entitledB hd hz (hq e he)
+  have h3 : Q.all (fun e => c.origin.client != some e && c.origin.fromZone != some (T.zoneOf e)) = true := by
     rw [List.all_eq_true]
     intro e he
-    have := no_echo hz he
+    have := no_echo hz (hq e he)
     simp [this.1, this.2]
-  have h4 : nodupB (relayFuel fuel T c.self c.origin c.objZone c.log).sent = true :=
-    (nodupB_iff _).mpr (no_duplicate_send wf)
-  have h5 : (relayFuel fuel T c.self c.origin c.objZone c.log).sent.all (fun a =>
-      (relayFuel fuel T c.self c.origin c.objZone c.log).sent.all
+  have h4 : nodupB Q = true := by
+    rw [nodupB_iff, ← hQ]
+    exact (List.filter_sublist).nodup (no_duplicate_send wf)
+  have h5 : Q.all (fun a => Q.all
         (fun b => !(T.zoneOf a == T.zoneOf b && T.zoneOf a != T.zoneOf c.self) || a == b)) = true := by
     rw [List.all_eq_true]
     intro a ha
     rw [List.all_eq_true]
     intro b hb
     by_cases hab : T.zoneOf a = T.zoneOf b ∧ T.zoneOf a ≠ T.zoneOf c.self
-    · have := single_entry hd hz ha hb hab.1 hab.2
+    · have := single_entry hd hz (hq a ha) (hq b hb) hab.1 hab.2
       simp [this]
     · have : (T.zoneOf a == T.zoneOf b && T.zoneOf a != T.zoneOf c.self) = false := by
         simp only [Bool.and_eq_false_imp, beq_iff_eq, bne_eq_false_iff_eq]
         intro h
         exact Classical.byContradiction (fun hn => hab ⟨h, hn⟩)
       simp [this]
-  have h6 : (notMasterB T c.self && !(relayFuel fuel T c.self c.origin c.objZone c.log).sent.all
-      (fun e => isZoneMasterB T c.self e)) = false := by
+  have h6 : (notMasterB T c.self && !Q.all (fun e => isZoneMasterB T c.self e)) = false := by
     by_cases hn : notMasterB T c.self = true
     · have hm := notMaster_of_notMasterB hn
-      have : (relayFuel fuel T c.self c.origin c.objZone c.log).sent.all (fun e => isZoneMasterB T c.self e) = true := by
+      have : Q.all (fun e => isZoneMasterB T c.self e) = true := by
         rw [List.all_eq_true]
         intro e he
-        exact isZoneMasterB_of_master hz (only_master_crosses hm he) (reachable_only he).1
+        exact isZoneMasterB_of_master hz (only_master_crosses hm (hq e he)) (reachable_only (hq e he)).1
       simp [this]
     · simp [hn]
   have h7 : (c.log && !(relayFuel fuel T c.self c.origin c.objZone c.log).persist &&
@@ -162,15 +163,8 @@ theorem relay_meets_spec (c : Case) (wf : WF T c.self) :
           obtain ⟨⟨hrel, hent⟩, hun⟩ := hcond
           by_cases hg : T.isGlobal (targetZone T c.self c.objZone) = true
           · apply logged_not_dropped_global hd hg _ hun
-            unfold entitledB at hent
-            simp only [hg, if_true, Bool.or_eq_true, beq_iff_eq] at hent
-            unfold candidateZones at hzc
-            simp only [hg, if_true, List.mem_cons] at hzc
-            rcases hent with h | h
-            · exact Or.inl h
-            · rcases hzc with h' | h'
-              · exact Or.inl h'
-              · exact Or.inr ⟨h', h⟩
+            have := candidate_relayed c hzc hrel hent
+            simpa [hg] using this
           · have hg' : T.isGlobal (targetZone T c.self c.objZone) = false := by simpa using hg
             apply logged_not_dropped hd hg' _ hrel hun
             unfold entitledB at hent
@@ -179,9 +173,48 @@ theorem relay_meets_spec (c : Case) (wf : WF T c.self) :
         simp [this]
       · simp [hany]
     · simp [hlog]
+  have h8 : (match getMaster T c.self with | some m => !masterIsB T c.self m | none => false) = false := by
+    cases hm : getMaster T c.self with
+    | none => rfl
+    | some m => simp [masterIsB_of_getMaster hm]
+  have h9 : (entitledB fuel T c.self c.objZone (T.zoneOf c.self) &&
+      !(T.eps c.self (T.zoneOf c.self)).all (fun p => !peerDueB T c p || Q.contains p)) = false := by
+    by_cases hent : entitledB fuel T c.self c.objZone (T.zoneOf c.self) = true
+    · have : (T.eps c.self (T.zoneOf c.self)).all (fun p => !peerDueB T c p || Q.contains p) = true := by
+        rw [List.all_eq_true]
+        intro p hp
+        by_cases hdue : peerDueB T c p = true
+        · have := peer_due_sent hd c hent hp hdue
+          rw [hQ] at this
+          simp [this]
+        · simp [hdue]
+      rw [this, hent]; rfl
+    · simp [hent]
+  have h10 : (candidateZones T c.self c.objZone).all (fun z =>
+      !(directlyRelated T c.self z && entitledB fuel T c.self c.objZone z && zoneDueB T c z) ||
+      Q.any (fun e => (T.eps c.self z).contains e)) = true := by
+    rw [List.all_eq_true]
+    intro z hzc
+    by_cases hcond : (directlyRelated T c.self z && entitledB fuel T c.self c.objZone z && zoneDueB T c z) = true
+    · simp only [Bool.and_eq_true] at hcond
+      obtain ⟨e, he, hmem⟩ := zone_due_sent hd c hzc hcond.1.1 hcond.1.2 hcond.2
+      rw [hQ] at he
+      have : Q.any (fun e => (T.eps c.self z).contains e) = true := by
+        rw [List.any_eq_true]; exact ⟨e, he, by simpa using hmem⟩
+      rw [this, Bool.or_true]
+    · have : (directlyRelated T c.self z && entitledB fuel T c.self c.objZone z && zoneDueB T c z) = false := by
+        simpa using hcond
+      rw [this]; rfl
   unfold specCase Result.obs
-  simp only [h1, h2, h3, h4, h5, h6, h7, Bool.not_true, Bool.false_eq_true, if_false]
-  simp [relayFuel]
+  simp only [hQ, h1, h2, h3, h4, h5, h6, h7, h8, h9, h10, Bool.not_true, Bool.false_eq_true, if_false]
+  simp [relayFuel] <;> exact h8
+
+/-- **same_master.**  The choice of the zone master depends on names and connectedness only: two nodes of one zone that
+    have the same view of its members (in particular two zone peers that see each other) name the same master -
+    whatever their `syncing` flags, log positions or anything else say. -/
+theorem same_master {a b : Ep} (hmem : ∀ x, x ∈ T.eps a (T.zoneOf a) ↔ x ∈ T.eps b (T.zoneOf b))
+    (hview : ∀ x ∈ T.eps a (T.zoneOf a), (T.conn a x || x == a) = (T.conn b x || x == b)) :
+    getMaster T a = getMaster T b := same_master_aux hmem hview
 
 end Node
 
@@ -248,16 +281,16 @@ example : (relay { exT with conn := fun _ _ => false } 2 Origin.loc (some 2) tru
 example : exT.isGlobal (targetZone exT 2 (some 2)) = false ∧ (0 : Zone) ∈ targetZone exT 2 (some 2) :: allParents exT maxDepth (targetZone exT 2 (some 2)) ∧
     directlyRelated exT 2 0 = true ∧ unreachableB { exT with conn := fun _ _ => false } 2 0 = true := by decide
 /-- the specification accepts what the model does … -/
-example : specCase maxDepth exT ⟨2, Origin.loc, some 2, true⟩ (relay exT 2 Origin.loc (some 2) true).obs = none :=
+example : specCase maxDepth exT ⟨2, Origin.loc, some 2, true⟩ ((relay exT 2 Origin.loc (some 2) true).obs exT 2) = none :=
   relay_meets_spec _ (exT_wf 2)
 /-- … and rejects wrong traces: a second endpoint of a foreign zone, an echo, a send by a non-master across the
     border, an unentitled zone, a dropped message, a lost origin zone -/
-example : specCase maxDepth exT ⟨2, Origin.loc, some 2, true⟩ ⟨[4, 5, 3, 0], false, none⟩ = some .single_entry := by decide
-example : specCase maxDepth exT ⟨0, ⟨some 2, some 1⟩, some 2, true⟩ ⟨[1, 2], false, some 1⟩ = some .no_echo := by decide
-example : specCase maxDepth exT ⟨3, Origin.loc, some 2, true⟩ ⟨[2, 0], false, none⟩ = some .only_master_crosses := by decide
-example : specCase maxDepth exT ⟨2, Origin.loc, some 1, true⟩ ⟨[3, 0, 4], false, none⟩ = some .only_entitled := by decide
-example : specCase maxDepth { exT with conn := fun _ _ => false } ⟨2, Origin.loc, some 2, true⟩ ⟨[], false, none⟩ = some .logged_not_dropped := by decide
-example : specCase maxDepth exT ⟨0, ⟨some 2, some 1⟩, some 2, true⟩ ⟨[1], false, none⟩ = some .origin_zone_copied := by decide
+example : specCase maxDepth exT ⟨2, Origin.loc, some 2, true⟩ { sent := [4, 5, 3, 0], persist := false, originZone := none } = some .single_entry := by decide
+example : specCase maxDepth exT ⟨0, ⟨some 2, some 1⟩, some 2, true⟩ { sent := [1, 2], persist := false, originZone := some 1 } = some .no_echo := by decide
+example : specCase maxDepth exT ⟨3, Origin.loc, some 2, true⟩ { sent := [2, 0], persist := false, originZone := none } = some .only_master_crosses := by decide
+example : specCase maxDepth exT ⟨2, Origin.loc, some 1, true⟩ { sent := [3, 0, 4], persist := false, originZone := none } = some .only_entitled := by decide
+example : specCase maxDepth { exT with conn := fun _ _ => false } ⟨2, Origin.loc, some 2, true⟩ { sent := [], persist := false, originZone := none } = some .logged_not_dropped := by decide
+example : specCase maxDepth exT ⟨0, ⟨some 2, some 1⟩, some 2, true⟩ { sent := [1], persist := false, originZone := none } = some .origin_zone_copied := by decide
 
 /-- Beyond the property's quantifier (it speaks of one or two endpoints per zone): with THREE members in the node's own
     zone the test "last examined member connected" (apilistener.cpp:1262-1268, 1313) lets a message for a disconnected
